@@ -15,8 +15,9 @@
 // A query answer is flagged only if BOTH oracles reject it (the model says what the answer
 // was when the snapshot was taken; the differential run says what it is without the
 // reverted calls).  Emptiness and presence of an account in the trie are not notions of
-// the model (the implementation derives them from its caches): there the differential
-// oracle decides alone.  Nonce / code hash / slot differences between the two tries are
+// the model (the implementation derives them from its caches): presence in the trie is
+// decided by the differential oracle alone; Empty() is not in the statement's list of
+// queries and a difference there is only recorded as an observation.  Nonce / code hash / slot differences between the two tries are
 // dropped when the history's own leaf is what the model says.
 //
 // Every history with a revert is executed twice: once ending in the full observation
@@ -75,7 +76,7 @@ func main() {
 			if tier == "thorough" {
 				return 17 * time.Minute
 			}
-			return 50 * time.Second
+			return 100 * time.Second
 		},
 	})
 }
@@ -406,7 +407,7 @@ func (s *slice) walk(h []Op) (m *model, red []Op, revFam []string, hasRevert, ha
 				if d.K == kReadAll || d.K == kReadCommitted {
 					kept = append(kept, d)
 				} else {
-					fam[family[d.K]] = true
+					fam[familyOf(d)] = true
 				}
 			}
 			red = append(red[:marks[o.V]:marks[o.V]], kept...)
@@ -450,6 +451,7 @@ type nodeRes struct {
 	undone    int
 	revFam    []string
 	forward   []string // forward-semantics deviations from the model (history without revert)
+	emptyObs  []string // role \x00 message: Empty() answers differently after the revert (observation only)
 }
 
 func (s *slice) roleOfName(n string) string {
@@ -542,6 +544,12 @@ func (s *slice) eval(h []Op) *nodeRes {
 					}
 					msg += fmt.Sprintf(" (reference model: %s)", want)
 					delete(modelMis, i)
+				} else {
+					// Empty is not among the queries the statement lists (and the implementation derives
+					// it from its caches): an observation for the evidence, not a verdict.  Its
+					// consequence for the root is judged below.
+					res.emptyObs = append(res.emptyObs, s.roleOfName(who)+"\x00"+msg)
+					continue
 				}
 				fail(failure{Class: "accessor", Detail: name + "-after-revert", Role: s.roleOfName(who), Msg: msg})
 			}
@@ -845,6 +853,14 @@ func (b *bfs) visit(idx []byte, own bool) *model {
 			if !b.fwdNoted[name] {
 				b.fwdNoted[name] = true
 				c.Note("forward_deviation_example:"+name, fmt.Sprintf("start=%s history=%v: %s", s.u.name, histStr(s.u, h), fd))
+			}
+		}
+		for _, eo := range res.emptyObs {
+			p := strings.SplitN(eo, "\x00", 2)
+			c.Count("observation_not_flagged:Empty-differs-after-revert:"+p[0], 1)
+			if !b.fwdNoted["Empty:"+p[0]] {
+				b.fwdNoted["Empty:"+p[0]] = true
+				c.Note("observation_example:Empty-differs-after-revert:"+p[0], fmt.Sprintf("start=%s history=%v: %s", s.u.name, histStr(s.u, h), p[1]))
 			}
 		}
 		switch {
